@@ -104,7 +104,16 @@ class ZConfigParser:
             self.error(e.message)
 
         if isempty:
-            self.context.endSection(section, type_, name, newsect)
+            try:
+                self.context.endSection(section, type_, name, newsect)
+            except ZConfig.DataConversionError as e:
+                if e.lineno < 0:
+                    e.lineno = self.lineno
+                if not e.url:
+                    e.url = self.url
+                raise
+            except ZConfig.ConfigurationError as e:
+                self.error(e.message)
             return section
 
         self.stack.append((type_, name, section))
